@@ -72,7 +72,9 @@ Lexer::~Lexer() {
 int Lexer::peekNextChar() {
   if (bufferPos == buffer.end())
     return -1;
-  return *bufferPos;
+  // Return the byte as an unsigned value, so that 0xFF is not confused with
+  // the end-of-file marker (-1) and is a valid argument for isspace().
+  return (unsigned char)*bufferPos;
 }
 
 int Lexer::getNextChar() {
@@ -95,7 +97,7 @@ int Lexer::getNextChar() {
     ++columnNumber;
   }
 
-  return result;
+  return (unsigned char)result;
 }
 
 Token& Lexer::setTokenKind(Token& result, Token::Kind kind) const {
